@@ -31,6 +31,7 @@ type fqBuilder struct {
 	async   []int
 	// riskyArgs: background calls may get argument expressions that fail on some rows
 	riskyArgs bool
+	usedOnce  bool
 }
 
 func (b *fqBuilder) next(position string) int {
@@ -95,7 +96,7 @@ var selectorColumns = []string{
 }
 
 func (b *fqBuilder) selectItem(prefix string, nestedOK bool) string {
-	kinds := []string{"col", "stub", "concat", "case", "arith", "subquery", "stub", "backref"}
+	kinds := []string{"col", "stub", "concat", "case", "arith", "subquery", "stub", "backref", "once_stub", "if_arg", "between", "in_list"}
 	if b.asyncOK {
 		kinds = append(kinds, "async", "spin", "spinasync")
 	}
@@ -107,6 +108,23 @@ func (b *fqBuilder) selectItem(prefix string, nestedOK bool) string {
 	case "stub":
 		s := b.next("select")
 		return fmt.Sprintf("fid(%d, %s) AS x%d", s, col(rapid.SampledFrom([]string{"id", "a", "s"}).Draw(b.t, "col")), s)
+	case "once_stub":
+		// a ONCE-qualified call is synchronous: its failure is the query's failure
+		if b.usedOnce {
+			return col("id")
+		}
+		b.usedOnce = true
+		s := b.next("once_qualified_call")
+		return fmt.Sprintf("ONCE.fid(%d, %s) AS x%d", s, col("a"), s)
+	case "if_arg":
+		s := b.next("function_argument")
+		return fmt.Sprintf("IF(%s >= 20, fid(%d, %s), %s) AS x%d", col("a"), s, col("a"), col("id"), s)
+	case "between":
+		s := b.next("between_bound")
+		return fmt.Sprintf("%s BETWEEN 0 AND fid(%d, %s) AS x%d", col("id"), s, col("a"), s)
+	case "in_list":
+		s := b.next("in_list_element")
+		return fmt.Sprintf("%s IN (1, fid(%d, %s)) AS x%d", col("id"), s, col("id"), s)
 	case "concat":
 		s := b.next("function_argument")
 		return fmt.Sprintf("CONCAT(fid(%d, %s), '-') AS x%d", s, col("s"), s)
@@ -213,7 +231,7 @@ func genFaultQueryRisky(t *rapid.T, root string, asyncOK, riskyArgs bool) faultQ
 	for attempt := 0; ; attempt++ {
 		b := &fqBuilder{t: t, root: root, asyncOK: asyncOK, riskyArgs: riskyArgs}
 		shape := rapid.SampledFrom([]string{"simple", "derived", "cte", "cte_chain", "group_having", "union", "join", "modifiers", "star", "nested_sub",
-			"cte_union", "derived_with", "join_derived_with", "cte_direct", "join_on_func", "selector_cols", "selector_from"}).Draw(t, "shape")
+			"cte_union", "derived_with", "join_derived_with", "cte_direct", "join_on_func", "selector_cols", "selector_from", "cte_twice", "derived_in_join"}).Draw(t, "shape")
 		var q string
 		open := false
 		switch shape {
@@ -266,6 +284,13 @@ func genFaultQueryRisky(t *rapid.T, root string, asyncOK, riskyArgs bool) faultQ
 			s1 := b.next("cte_in_derived_table")
 			s2 := b.next("cte_in_derived_table")
 			q = fmt.Sprintf("SELECT * FROM (WITH c1 AS (SELECT id, fid(%d, a) AS a FROM %s) SELECT id, a FROM c1) x JOIN (WITH c2 AS (SELECT fid(%d, id) AS id FROM %s) SELECT id FROM c2) y ON x.id = y.id", s1, T, s2, U)
+			open = true
+		case "cte_twice":
+			s := b.next("cte_body_read_twice")
+			q = fmt.Sprintf("WITH c AS (SELECT id, a, fid(%d, a) AS x%d FROM %s) SELECT id, (SELECT a FROM `<-c` WHERE a >= 10) AS again FROM c", s, s, T)
+		case "derived_in_join":
+			s := b.next("derived_table_in_join")
+			q = fmt.Sprintf("SELECT * FROM (SELECT id, fid(%d, a) AS a FROM %s) x JOIN %s y ON x.id = y.id", s, T, U)
 			open = true
 		case "cte_direct":
 			s := b.next("cte_read_through_selector")
